@@ -732,6 +732,136 @@ def rule_selection_order(F, R):
     R.floor("R-C18-7", n, 1, "cross-worker reductions of the weak learners' candidates")
 
 
+def rule_partition(F, R):
+    """R-C18-8: the work the dataset iterators hand to the pool does not depend on the pool's size. Every `loop` of select_iterator_t over a
+    feature list, and of flatten_iterator_t / targets_iterator_t over the samples, is evaluated (integer arithmetic of the chunking helpers,
+    the lambda handed to map; map itself is modelled as the correct tiling R-C17-6 establishes, the callback records what it is given) for a grid
+    of list sizes x worker counts (x batch sizes): the callback receives every feature of the list exactly once / ranges that tile the samples."""
+    import sympy as sp
+    from ..symexec import Interp
+    from ..kalg import OutOfFragment
+    fns = [f for f in F.functions.values() if f.relfile == "src/dataset/iterator.cpp" and f.qn.split("::")[-1] == "loop" and f.body is not None]
+    n_sel = n_rng = 0
+    for f in sorted(fns, key=lambda f_: f_.line):
+        cb = [p_ for p_ in f.params if "callback" in (p_.get("n") or "") or "function<" in (p_.get("t") or "")]
+        if len(cb) != 1:
+            continue
+        maps = [c for c in f.calls(lambda n: callee(n).split("::")[-1] == "map")]
+        lists = [p_ for p_ in f.params if p_.get("n") == "features"]
+        if not maps:
+            continue            # single-feature overloads / forwarding overloads: nothing is partitioned
+        inst = "%s@%d" % (f.qn.split("::", 1)[-1], f.line)
+        cbd = cb[0]["d"]
+        state = {}
+
+        class LI(Interp):
+            spawn_same = True
+
+            def ev(self, n):
+                n2 = skip(n)
+                if n2 is not None and n2["k"] == "cast" and n2.get("ck") == "ToVoid":
+                    return sp.Integer(0)
+                if n2 is not None and n2["k"] == "call":
+                    q = callee(n2)
+                    nm = q.split("::")[-1]
+                    if n2.get("ck") == "op" and n2.get("op") == "()" and n2.get("c") and ref_decl(n2["c"][0]) == cbd:
+                        state["seen"].append(self.ev(n2["c"][1]))
+                        return sp.Integer(0)
+                    if nm == "concurrency" and not args(n2):
+                        return sp.Integer(state["C"])
+                    if nm == "batch" and not args(n2):
+                        return sp.Integer(state["B"])
+                    if nm == "samples" and not args(n2) and n2.get("ck") == "mem":
+                        return [sp.Integer(100 + i_) for i_ in range(state["N"])]
+                    if nm == "make_range" and len(args(n2)) == 2:
+                        return ("range", self.ev(args(n2)[0]), self.ev(args(n2)[1]))
+                    if n2.get("ck") == "mem" and nm in ("begin", "end", "size") and not args(n2):
+                        o = self.ev(obj(n2))
+                        if isinstance(o, tuple) and o and o[0] == "range":
+                            return {"begin": o[1], "end": o[2], "size": o[2] - o[1]}[nm]
+                        if isinstance(o, list) and nm == "size":
+                            return sp.Integer(len(o))
+                    if nm == "map" and n2.get("ck") == "mem" and len(args(n2)) in (2, 3):
+                        a = args(n2)
+                        cnt = sp.sympify(self.ev(a[0]))
+                        lam = self.ev(a[-1])
+                        if not cnt.is_Integer or not (isinstance(lam, tuple) and lam and lam[0] == "lambda"):
+                            raise OutOfFragment("map(%s, ...)" % cnt)
+                        tnum = sp.Symbol("tnum", integer=True, nonnegative=True)
+                        if len(a) == 3:
+                            ch = sp.sympify(self.ev(a[1]))
+                            if not ch.is_Integer or ch < 1:
+                                raise OutOfFragment("chunk size %s" % ch)
+                            b_ = 0
+                            while b_ < cnt:
+                                e_ = min(b_ + int(ch), int(cnt))
+                                self.call_lambda(lam[1], [sp.Integer(b_), sp.Integer(e_), tnum], [])
+                                b_ = e_
+                        else:
+                            for i_ in range(int(cnt)):
+                                self.call_lambda(lam[1], [sp.Integer(i_), tnum], [])
+                        return sp.Integer(0)
+                return super().ev(n)
+
+        bad = None
+        nrun = 0
+        try:
+            if lists:
+                n_sel += 1
+                for N in (0, 1, 2, 5, 7, 16, 17, 20, 23, 33):
+                    for C in (1, 2, 3, 4, 5, 6, 8, 16):
+                        state.update(C=C, B=1, N=0, seen=[])
+                        it = LI(F, f, n=1)
+                        feats = [sp.Integer(10 + i_) for i_ in range(N)]
+                        it.env[lists[0]["d"]] = feats
+                        for p_ in f.params:
+                            if p_["d"] not in it.env:
+                                it.env[p_["d"]] = sp.Symbol(p_.get("n") or "p")
+                        it.run()
+                        nrun += 1
+                        if sorted(map(int, state["seen"])) != [int(x) for x in feats]:
+                            miss = sorted(set(map(int, feats)) - set(map(int, state["seen"])))
+                            bad = "a list of %d features on %d worker(s): %s" % (N, C, ("the features at positions %s are never handed to the callback" % [m_ - 10 for m_ in miss][:5])
+                                                                                if miss else "some features are handed to the callback more than once")
+                            break
+                    if bad:
+                        break
+            else:
+                n_rng += 1
+                for N in (0, 1, 5, 17, 40):
+                    for B in (1, 3, 7, 100):
+                        for C in (1, 3, 16):
+                            state.update(C=C, B=B, N=N, seen=[])
+                            it = LI(F, f, n=1)
+                            for p_ in f.params:
+                                it.env[p_["d"]] = sp.Symbol(p_.get("n") or "p")
+                            it.run()
+                            nrun += 1
+                            rs = sorted((int(r_[1]), int(r_[2])) for r_ in state["seen"] if isinstance(r_, tuple) and r_ and r_[0] == "range")
+                            pos = 0
+                            okr = len(rs) == len(state["seen"])
+                            for b_, e_ in rs:
+                                okr = okr and b_ == pos and b_ < e_ <= b_ + B
+                                pos = e_
+                            if not okr or pos != N:
+                                bad = "%d samples in batches of %d on %d worker(s): the callback receives the ranges %s" % (N, B, C, rs[:6])
+                                break
+                        if bad:
+                            break
+                    if bad:
+                        break
+        except OutOfFragment as e:
+            R.incomplete("R-C18-8", inst, f.loc(), "cannot evaluate the loop: %s" % e)
+            continue
+        R.check(bad is None, "R-C18-8", inst, f.loc(),
+                "%s whatever the number of workers (%d configurations evaluated)" % ("every feature of the list reaches the callback exactly once" if lists else
+                                                                                      "the ranges handed to the callback tile the samples in batches", nrun),
+                "what the loop visits depends on the pool's size: %s - fitting through this iterator selects different features / sums different samples on machines "
+                "with different thread counts" % bad)
+    R.floor("R-C18-8/select", n_sel, 4, "feature-list loops of select_iterator_t")
+    R.floor("R-C18-8/range", n_rng, 3, "sample loops of flatten_iterator_t / targets_iterator_t")
+
+
 def run(ctx):
     R = ctx.report
     tus = sorted(set(ctx.all_tus()) | {"witness/effects_inst.cpp"})
@@ -745,3 +875,4 @@ def run(ctx):
     rule_lsearch(F, R)
     rule_shared_objects(F, R)
     rule_selection_order(F, R)
+    rule_partition(F, R)
